@@ -16,6 +16,7 @@ import itertools
 from sa.core import rule, AnalysisError
 from sa.pyindex import get_module, dotted, src, calls_in, walk_no_nested, all_py_files
 from sa import flow
+from rules import _util_c13c02c10 as U
 
 EXPLANATION = (
     "Static sibling-agreement and dispatch rules for argument binding, "
@@ -23,7 +24,9 @@ EXPLANATION = (
     "abstract/_pytd_function.py, abstract/function.py, errors/error_types.py "
     "and errors/errors.py.  R13.1: for every `raise error_types.X` in "
     "SignedFunction._map_args and in PyTDSignature._map_args + "
-    "_fill_in_missing_parameters the path condition (enclosing tests, negated "
+    "_fill_in_missing_parameters (each resolved through the module-local MRO "
+    "of its class, with the self-helpers it was split into inlined in place) "
+    "the path condition (enclosing tests, negated "
     "early exits, loop domains) is turned into a propositional formula over a "
     "sibling-neutral vocabulary (signature has *args / **kwargs, call site "
     "has * / **, name is positional-only / a passed keyword / already bound, "
@@ -70,8 +73,23 @@ ASSUMPTIONS = [
     "recorded, not compared",
     "the negation of an earlier check whose only effect is to raise another "
     "binder error orders the errors and is not counted as a guard",
-    "only raises written directly in the three binder functions are compared; "
-    "helpers they call are not followed",
+    "the binder functions (SignedFunction._map_args, PyTDSignature._map_args "
+    "and _fill_in_missing_parameters) are looked up along the module-local MRO "
+    "of their class (a method moved into a local mixin / base is found there; "
+    "a non-local base before the definition is an analysis error) and the "
+    "private helpers they call as statements on self (`self._helper(..)`, also "
+    "`x = self._helper(..)` when the helper ends in its only return) are "
+    "inlined in place, parameters bound to the arguments and helper locals "
+    "renamed, bare-return guard clauses rewritten to if/else, so that raises, "
+    "map stores and call-record mutations inside the helpers are seen under "
+    "the conjunction of the caller's and the helper's path conditions; a "
+    "helper that is overridden in a subclass (same file or "
+    "_interpreter_function.py), or that cannot be inlined exactly (return "
+    "inside a loop, several value returns, */** parameters, nested "
+    "functions), is left in place and is an analysis error when it raises a "
+    "binder error; value helpers used inside expressions (self.argcount, "
+    "self.get_nondefault_params) are not followed except as described for "
+    "R13.5",
     "Signature.param_names holds exactly the positional parameters "
     "(positional-only first), kwonly_params the keyword-only ones, and "
     "pytd_sig.params both kinds (Signature.from_pytd); CPython's co_argcount "
@@ -178,11 +196,58 @@ class _Defs:
 # -- a binder = function(s) + map name --------------------------------------------
 
 class _Binder:
-  def __init__(self, ctx, label, rel, quals):
+  """One argument binder: the methods `names` of `receiver`, resolved along the
+  receiver's module-local MRO (a method moved into a local mixin is found
+  there), with the private helpers they were split into
+  (`self.<helper>(..)` statements, resolved the same way) inlined in place, so
+  that path conditions and reaching definitions span the whole binder."""
+
+  def __init__(self, ctx, label, rel, receiver, names):
     self.label = label
     self.rel = rel
-    self.mod = get_module(ctx, rel)
-    self.fns = [(q, self.mod.func(q)) for q in quals]
+    self.receiver = receiver
+    mod = get_module(ctx, rel)
+    self.fns = []
+    extra = {}
+    inlined_all = []
+    # a helper overridden in a subclass is not what runs there: never inlined
+    overridden = {}
+    for r in sorted({rel, IF}):
+      m = get_module(ctx, r)
+      for c in U.local_subclasses(m, receiver):
+        for meth in m.methods(c):
+          overridden.setdefault(meth, f"{r}:{c}")
+    for name in names:
+      owner, fn = U.resolve_method(mod, receiver, name)
+      q = f"{receiver}.{name}"
+      inl = U.inline_calls(mod, fn, receiver=receiver, module_helpers=False,
+                           only=lambda n: n not in overridden)
+      if inl.fn is not fn:
+        extra.update({k: v for k, v in inl.mod.parent.items()
+                      if k not in mod.parent})
+      inlined_all += inl.inlined
+      # helpers left in place must not hide binder errors
+      for c in calls_in(inl.fn):
+        f = c.func
+        if isinstance(f, ast.Attribute) and dotted(f.value) == "self" and \
+            U.has_method(mod, receiver, f.attr):
+          h = U.resolve_method(mod, receiver, f.attr)[1]
+          hidden = sorted({(dotted(x.exc.func) or "?").split(".")[-1]
+                           for x in ast.walk(h) if isinstance(x, ast.Raise)
+                           and isinstance(x.exc, ast.Call)} & set(BINDER_ERRORS))
+          if hidden and h is not fn:
+            why = dict(inl.skipped).get(f.attr) or (
+                f"overridden in {overridden[f.attr]}" if f.attr in overridden
+                else "not called as a statement")
+            raise AnalysisError(
+                f"{q}: helper self.{f.attr} raises {hidden} but could not be "
+                f"inlined ({why})")
+      self.fns.append((q, inl.fn))
+    # a binder function that is also inlined into another one is analysed once
+    self.fns = [(q, fn) for q, fn in self.fns
+                if q.split(".")[-1] not in inlined_all]
+    self.inlined = sorted(set(inlined_all))
+    self.mod = U.ModView(mod, extra) if extra else mod
     self.defs = {q: _Defs(fn) for q, fn in self.fns}
     self.maps = {q: self._map_name(q, fn) for q, fn in self.fns}
 
@@ -215,9 +280,9 @@ class _Binder:
 def _binders(ctx):
   def make():
     return (
-        _Binder(ctx, "interpreter", FB, ["SignedFunction._map_args"]),
-        _Binder(ctx, "pytd", PF, ["PyTDSignature._map_args",
-                                  "PyTDSignature._fill_in_missing_parameters"]))
+        _Binder(ctx, "interpreter", FB, "SignedFunction", ["_map_args"]),
+        _Binder(ctx, "pytd", PF, "PyTDSignature",
+                ["_map_args", "_fill_in_missing_parameters"]))
   return ctx.memo("c13binders", make)
 
 
@@ -1145,11 +1210,9 @@ def _count_class(ctx, binder, canon, expr, stmt, depth=0):
   # self.<method>(..): the method of the binder's own class, one `return E`
   if isinstance(expr, ast.Call) and isinstance(expr.func, ast.Attribute) and \
       dotted(expr.func.value) == "self" and canon is not None:
-    cls = binder.mod.parent.get(canon.fn)
-    if not isinstance(cls, ast.ClassDef):
-      return None
-    meth = binder.mod.methods(cls.name).get(expr.func.attr)
-    if meth is None:
+    try:
+      _, meth = U.resolve_method(binder.mod, binder.receiver, expr.func.attr)
+    except AnalysisError:
       return None
     body = [st for st in meth.body if not (isinstance(st, ast.Expr)
                                            and isinstance(st.value, ast.Constant))]
@@ -1162,7 +1225,7 @@ def _count_class(ctx, binder, canon, expr, stmt, depth=0):
     for rel in {binder.rel, IF}:
       m = get_module(ctx, rel)
       for cname, cdef in m.classes.items():
-        if cname == cls.name or not _derives_from(m, cname, cls.name):
+        if cname == binder.receiver or not _derives_from(m, cname, binder.receiver):
           continue
         ov = m.methods(cname).get(expr.func.attr)
         if ov is None:
@@ -1297,7 +1360,7 @@ VARIANTS = [
      "old": "            not p.optional\n            and args.starargs is None\n            and args.starstarargs is None",
      "new": "            not p.optional\n            and args.starstarargs is None"},
     {"name": "interp-duplicate-includes-posonly", "rule": "R13.1", "file": FB, "expect": "fire",
-     "old": "    for key in set(positional) - posonly_names:", "new": "    for key in set(positional):"},
+     "old": "    for key in sorted(set(positional) - posonly_names):", "new": "    for key in sorted(set(positional)):"},
     {"name": "pytd-duplicate-check-dropped", "rule": "R13.1", "file": PF, "expect": "fire",
      "old": "      elif name in arg_dict:\n        raise error_types.DuplicateKeyword(self.signature, args, self.ctx, name)\n      else:\n        arg_dict[name] = arg",
      "new": "      else:\n        arg_dict[name] = arg"},
@@ -1328,6 +1391,61 @@ VARIANTS = [
     {"name": "twin-interp-kwonly-chain-listcomp", "rule": "R13.1", "file": FB, "expect": "silent",
      "old": "self.get_nondefault_params(), ((key, True) for key in sig.kwonly_params)",
      "new": "self.get_nondefault_params(), [(k, True) for k in sig.kwonly_params]"},
+    # the binder split into helpers / moved into a local mixin (robustness)
+    {"name": "twin-benign-C13-r1-binder-split-into-helpers", "rule": "R13.1",
+     "patch": "benign/C13-r1/patch.diff", "expect": "silent"},
+    {"name": "twin-benign-C13-r4-binder-in-local-mixin", "rule": "R13.1",
+     "patch": "benign/C13-r4/patch.diff", "expect": "silent"},
+    {"name": "twin-interp-posonly-check-in-helper", "rule": "R13.1", "expect": "silent",
+     "edits": [(FB, "    if posonly_kws and not sig.kwargs_name:\n      raise error_types.WrongKeywordArgs(sig, args, self.ctx, posonly_kws)\n    callargs.update(positional)\n",
+                "    self._reject_posonly_kws(args, posonly_kws)\n    callargs.update(positional)\n"),
+               (FB, "  def _check_paramspec_args(self, args: function.Args) -> None:\n",
+                "  def _reject_posonly_kws(self, call_args, bad_kws):\n    sig = self.signature\n    if not bad_kws or sig.kwargs_name:\n      return\n    raise error_types.WrongKeywordArgs(sig, call_args, self.ctx, bad_kws)\n\n  def _check_paramspec_args(self, args: function.Args) -> None:\n")]},
+    {"name": "interp-posonly-check-in-helper-ignores-kwargs", "rule": "R13.1", "expect": "fire",
+     "edits": [(FB, "    if posonly_kws and not sig.kwargs_name:\n      raise error_types.WrongKeywordArgs(sig, args, self.ctx, posonly_kws)\n    callargs.update(positional)\n",
+                "    self._reject_posonly_kws(args, posonly_kws)\n    callargs.update(positional)\n"),
+               (FB, "  def _check_paramspec_args(self, args: function.Args) -> None:\n",
+                "  def _reject_posonly_kws(self, call_args, bad_kws):\n    sig = self.signature\n    if not bad_kws:\n      return\n    raise error_types.WrongKeywordArgs(sig, call_args, self.ctx, bad_kws)\n\n  def _check_paramspec_args(self, args: function.Args) -> None:\n")]},
+    {"name": "interp-keyword-store-in-helper-D7-revert", "rule": "R13.1", "expect": "fire",
+     "edits": [(FB, "    callargs.update({k: v for k, v in kws.items() if k not in posonly_names})\n",
+                "    self._store_keywords(callargs, kws, posonly_names)\n"),
+               (FB, "  def _check_paramspec_args(self, args: function.Args) -> None:\n",
+                "  def _store_keywords(self, bound, kws, posonly_names):\n    bound.update(kws)\n\n  def _check_paramspec_args(self, args: function.Args) -> None:\n")]},
+    {"name": "interp-missing-check-in-helper-dropped", "rule": "R13.1", "expect": "fire",
+     "edits": [(FB, "        else:\n          raise error_types.MissingParameter(sig, args, self.ctx, key)\n",
+                "        else:\n          self._missing(args, key)\n"),
+               (FB, "  def _check_paramspec_args(self, args: function.Args) -> None:\n",
+                "  def _missing(self, args, key):\n    log.info(\"missing %s\", key)\n\n  def _check_paramspec_args(self, args: function.Args) -> None:\n")]},
+    {"name": "interp-error-helper-not-inlinable", "rule": "R13.1", "expect": "error",
+     "edits": [(FB, "    if posonly_kws and not sig.kwargs_name:\n      raise error_types.WrongKeywordArgs(sig, args, self.ctx, posonly_kws)\n    callargs.update(positional)\n",
+                "    self._reject_posonly_kws(args, posonly_kws)\n    callargs.update(positional)\n"),
+               (FB, "  def _check_paramspec_args(self, args: function.Args) -> None:\n",
+                "  def _reject_posonly_kws(self, call_args, bad_kws):\n    for _ in bad_kws:\n      if self.signature.kwargs_name:\n        return\n      raise error_types.WrongKeywordArgs(self.signature, call_args, self.ctx, bad_kws)\n\n  def _check_paramspec_args(self, args: function.Args) -> None:\n")]},
+    {"name": "interp-binder-in-local-base-D7-revert", "rule": "R13.1", "expect": "fire",
+     "edits": [(FB, "class SignedFunction(Function):\n", "class _SignedFunctionBinding(Function):\n"),
+               (FB, "class SimpleFunction(SignedFunction):\n",
+                "class SignedFunction(_SignedFunctionBinding):\n  pass\n\n\nclass SimpleFunction(SignedFunction):\n"),
+               (FB, "callargs.update({k: v for k, v in kws.items() if k not in posonly_names})",
+                "callargs.update(kws)")]},
+    {"name": "twin-interp-binder-in-local-base", "rule": "R13.1", "expect": "silent",
+     "edits": [(FB, "class SignedFunction(Function):\n", "class _SignedFunctionBinding(Function):\n"),
+               (FB, "class SimpleFunction(SignedFunction):\n",
+                "class SignedFunction(_SignedFunctionBinding):\n  pass\n\n\nclass SimpleFunction(SignedFunction):\n")]},
+    {"name": "interp-capacity-in-helper-counts-kwonly", "rule": "R13.5", "expect": "fire",
+     "edits": [(FB, "    elif len(posargs) > self.argcount(node):\n      raise error_types.WrongArgCount(sig, args, self.ctx)\n",
+                "    else:\n      self._check_count(args, posargs)\n"),
+               (FB, "  def _check_paramspec_args(self, args: function.Args) -> None:\n",
+                "  def _check_count(self, args, given):\n    sig = self.signature\n    if len(given) > len(sig.param_names + sig.kwonly_params):\n      raise error_types.WrongArgCount(sig, args, self.ctx)\n\n  def _check_paramspec_args(self, args: function.Args) -> None:\n")]},
+    {"name": "twin-interp-capacity-in-helper", "rule": "R13.5", "expect": "silent",
+     "edits": [(FB, "    elif len(posargs) > self.argcount(node):\n      raise error_types.WrongArgCount(sig, args, self.ctx)\n",
+                "    else:\n      self._check_count(node, args, posargs)\n"),
+               (FB, "  def _check_paramspec_args(self, args: function.Args) -> None:\n",
+                "  def _check_count(self, node, args, given):\n    sig = self.signature\n    if len(given) > self.argcount(node):\n      raise error_types.WrongArgCount(sig, args, self.ctx)\n\n  def _check_paramspec_args(self, args: function.Args) -> None:\n")]},
+    {"name": "interp-binder-pops-keyword-in-helper", "rule": "R13.4", "expect": "fire",
+     "edits": [(FB, "    posonly_kws = kwnames & posonly_names\n",
+                "    posonly_kws = kwnames & posonly_names\n    self._drop(args, posonly_kws)\n"),
+               (FB, "  def _check_paramspec_args(self, args: function.Args) -> None:\n",
+                "  def _drop(self, args, names):\n    for k in names:\n      args.namedargs.pop(k)\n\n  def _check_paramspec_args(self, args: function.Args) -> None:\n")]},
     # R13.2
     {"name": "duplicate-keyword-arm-removed", "rule": "R13.2", "file": ERRORS, "expect": "fire",
      "old": "    elif isinstance(error, error_types.DuplicateKeyword):\n      self.duplicate_keyword(stack, error.name, error.bad_call, error.duplicate)\n",
